@@ -263,18 +263,22 @@ def mismatch_kind(obs: Counter, exp: Counter) -> str:
     return "wrong-rule"
 
 
-def name_unexplained(atom: dict, lin: str, vec: dict, obs: Counter, alts: list) -> str:
+def name_unexplained(atom: dict, lin: str, vec: dict, obs: Counter, alts: list, corroborated_as_test: bool) -> str:
     """Root-cause signature of a mismatch no listed deviation explains: if the observation is what the statement
-    would give with ONE context fact misjudged (test code / loop / async fn / wrapper), name that fact and what the
-    context looks like; otherwise name linter, expression class and kind of mismatch."""
+    would give with ONE context fact misjudged (loop / async fn / wrapper / test code), name that fact and what the
+    context looks like; otherwise name linter, expression class and kind of mismatch. For a *missing* report a silencing fact
+    is only named when at least one more plant of the same fn is silenced too and none of them is reported."""
     ctx = atom["ctx"]
     truth_test = in_test(ctx["items"])
-    flips = [("test", not truth_test)]
+    flips = []
     if lin == "clone":
         flips.append(("loop", not ctx["loop"]))
     if lin == "blocking":
         flips.append(("async", not ctx["async"]))
         flips.append(("wrapped", ctx["wrapper"] not in rr.RECOGNISED_WRAPPERS))
+    flips.append(("test", not truth_test))
+    if not obs and not corroborated_as_test:
+        flips = []  # "nothing reported" is explained by any silencing fact: name one only if the fn's other plants agree
     for fact, value in flips:
         a2 = atom_alternatives(atom, lin, vec, (), {fact: value})
         if a2 is None or not matches(obs, a2):
@@ -308,6 +312,8 @@ def judge(lin: str, vec: dict, atoms: list, violations: list, text: str, establi
     for v in violations:
         by_line.setdefault(v["line"], []).append(v)
     owned = set()
+    pending = []
+    status = {}
     src_lines = text.split("\n")
     for ai, atom in enumerate(atoms):
         first, last = atom["span"]
@@ -317,6 +323,8 @@ def judge(lin: str, vec: dict, atoms: list, violations: list, text: str, establi
             for v in by_line.get(ln, []):
                 obs[(v["rule_id"], v["line"], v["column"])] += 1
         alts = atom_alternatives(atom, lin, vec)
+        if alts is not None:
+            status[ai] = (bool(alts[0]), bool(obs))  # (statement expects something here, tool reported something here)
         if alts is None or matches(obs, alts):
             continue
         detail = {"linter": CMD[lin], "options": vec, "class": atom["cls"], "host": atom["host"], "context": ctx_tag(atom, lin),
@@ -341,7 +349,12 @@ def judge(lin: str, vec: dict, atoms: list, violations: list, text: str, establi
                     est.append(d)
                 fails.append(Failure(dev_sig(d, lin), {**detail, "explained_by_deviations": list(explained)}))
         else:
-            fails.append(Failure(name_unexplained(atom, lin, vec, obs, alts), detail))
+            pending.append((ai, atom, obs, alts, detail))
+    for ai, atom, obs, alts, detail in pending:
+        # other plants of the same innermost fn that the statement wants reported under these options
+        mates = [st for j, st in status.items() if j != ai and atoms[j]["ctx"]["items"] == atom["ctx"]["items"] and st[0]]
+        corroborated = bool(mates) and all(not st[1] for st in mates)
+        fails.append(Failure(name_unexplained(atom, lin, vec, obs, alts, corroborated), detail))
     for ln, vs in sorted(by_line.items()):
         if ln not in owned:
             fails.append(Failure(f"{CMD[lin]}|unplanted-line|extra",
@@ -564,6 +577,14 @@ def canonical_case(lin: str, vec: dict, flavor: str) -> dict:
     def fn(attrs, shift, a=is_async):
         return {"k": "fn", "attrs": attrs, "gap": None, "gapk": "line", "async": a, "pub": False, "gen": False, "body": body(shift)}
 
+    sweep = []
+    if lin == "blocking":
+        for i in range(len(rr.FS_FUNCS)):
+            sweep.append({"k": "atom", "e": "b.fs.full", "h": ("let", "expr", "arg")[i % 3], "t": i % 4, "v": i})
+            sweep.append({"k": "atom", "e": "b.fs.short", "h": ("expr", "arg", "let")[i % 3], "t": (i + 1) % 4, "v": i})
+        for i in range(len(rr.NET)):
+            for e in ("b.net.full", "b.net.mid", "b.net.bare"):
+                sweep.append({"k": "atom", "e": e, "h": "let", "t": i, "v": i})
     items = [fn([], 0), fn([test_attr], 1), fn(["inline", test_attr, "should_panic"], 2),
              {"k": "mod", "attrs": ["cfg_test"], "gap": None, "gapk": "line", "items": [
                  fn([], 3), {"k": "mod", "attrs": [], "gap": None, "gapk": "line", "items": [fn(["allow_dead"], 4)]}]},
@@ -571,11 +592,12 @@ def canonical_case(lin: str, vec: dict, flavor: str) -> dict:
              {"k": "impl", "methods": [fn(["inline"], 6)]}]
     if lin == "blocking":
         items.append(fn([], 7, a=False))
+        items.append({"k": "fn", "attrs": [], "gap": None, "gapk": "line", "async": True, "pub": True, "gen": False, "body": sweep})
     return {"flavor": flavor, "items": items, "opts": {lin: [vec]}, "only": [lin], "allvec": False}
 
 
 def run(ctx):
-    ctx.explore(cases(allvec=not ctx.quick), check, max_examples=ctx.n(110, 260))
+    ctx.explore(cases(allvec=not ctx.quick), check, max_examples=ctx.n(180, 260))
     cells = []
     for lin in LINTERS:
         for vec in all_vectors(lin):
